@@ -32,3 +32,11 @@ package tables
 //@   mode int
 //@   requires [one-value-per-size] len(dev.Values) == int(dev.EndSize)-int(dev.StartSize)+1
 //@   modifies nothing
+//
+// AnchorMatrix.Anchor: total for any non-negative record index and class (the callers pass a coverage index and the
+// class of a mark record, neither validated against the matrix), given offsets sanitized by sanitizeOffsets.
+//@ func AnchorMatrix.Anchor C09c
+//@   mode int
+//@   requires [non-negative] index >= 0 && class >= 0
+//@   requires [sanitized-offsets] forall(i, 0, len(am.records), forall(j, 0, len(am.records[i].offsets), int(am.records[i].offsets[j]) <= len(am.data)))
+//@   modifies unspecified
